@@ -1,7 +1,13 @@
+mod cfi;
+mod gen;
+mod hist;
 mod mem;
 mod model;
 mod rules;
+mod spec;
+mod thr;
 mod util;
+mod world;
 
 fn main() {
     let args: Vec<String> = std::env::args().collect();
@@ -42,6 +48,8 @@ fn main() {
     let t0 = std::time::Instant::now();
     let mut rep = match engine.as_str() {
         "rule" => rules::run(&tier, seed),
+        "hist" => hist::run(&tier, seed),
+        "thr" => thr::run(&tier, seed),
         _ => {
             eprintln!("unknown engine {engine}");
             std::process::exit(2);
